@@ -358,6 +358,11 @@ def report(ctx: Ctx, pid: str) -> None:
             # attribution: an early grant or a pure free_space difference speaks about C08 (accounting/admission);
             # any other deviation of the status machine, readers, locks or bytes speaks about C09
             props = {"C08"} if (early or fields == {"free"}) else {"C09"}
+            # the real store began to page out a dataset whose page-IN is still in flight: the space reserved for it is handed
+            # out a second time once both jobs have completed (capacity overcommitted) - that speaks about C08 as well
+            st_d = mm["diffs"].get("st")
+            if st_d and any(st_d[0].get(k) == "paged_in" and st_d[1].get(k) == "paging_out" for k in st_d[0]):
+                props.add("C08")
             if mm["action"][0] == "AtExit":
                 props = {"C05"}          # teardown: "leave no shared-memory segments behind"
             if pid in props:
